@@ -10,7 +10,7 @@ from typing import Union, List, Optional, Dict
 
 # Local imports
 from ...connect import Connectable
-from ...instance import _get_connref
+from ...instance import _get_connref, InstanceArray
 from ...instantiable import (
     io,
     Instantiable,
@@ -286,6 +286,11 @@ class ResolvePortRefs(ElabPass):
 
         # Copy any relevant attributes of the Port
         sig = self.copy_port(port)
+
+        # Each element of an `InstanceArray` gets its own piece of the unconnected net:
+        # make it wide enough for `ArrayFlattener` to hand one slice to each of them.
+        if isinstance(portref.inst, InstanceArray) and isinstance(sig, Signal):
+            sig.width = port.width * portref.inst.n
 
         # Set the signal name, either from the NoConn or the instance/port names,
         # in either case avoiding everything already in the Module namespace.
